@@ -449,6 +449,20 @@ def execute_c10(scenario, params, streams=None):
                     if is_new:
                         sig["paddable"] = _paddable_new_block(world, model, mt, sess, bu)
                     raise core.Violation("C10", "alignment-lost", {"alignment": a, "new_block": is_new, "zero_sized": size == 0, "session": si}, sig)
+            # ... including requirements the table no longer shows (or shows
+            # weakened): a block that had to be a-aligned before the rewrite,
+            # was, and is still there with contents, is a-aligned afterwards
+            live = {b.uuid: b for b in world.module.byte_blocks}
+            for bu, (a, ok, size) in sorted(pre_align.items(), key=lambda kv: kv[0].int):
+                b = live.get(bu)
+                if a <= 1 or not ok or b is None or not b.size or b.address is None or b.address % a == 0:
+                    continue
+                now = post.get(bu)
+                if now is not None and now[0] >= a:
+                    continue  # (already judged above)
+                relaid = any(bi.uuid in pre_addr and pre_addr[bi.uuid] != bi.address for bi in world.module.byte_intervals)
+                sig = {"new_block": False, "zero_sized": False, "layout_reordered": bool(obs.reordered), "relaid": relaid, "requirement": "weakened" if now is not None else "dropped"}
+                raise core.Violation("C10", "alignment-lost", {"alignment": a, "now": None if now is None else now[0], "new_block": False, "session": si}, sig)
             _check_patch_alignment(world, model, mt, sess, si, obs)
             stats["aligned_blocks"] += sum(1 for v in post.values() if v[0] > 1)
             stats["pads"] += sum(len(p) for p in mt.pads.values())
